@@ -434,20 +434,34 @@ func c04References(p *core.Prog, r *core.Run, m *echModel, pre string) {
 		// every back edge coming from the marker path carries true
 		setOnMarker := true
 		sawMarkerEdge := false
-		for i, e := range phi.Edges {
-			pred := phi.Block().Preds[i]
-			if !phi.Block().Dominates(pred) {
-				continue // entry edge
+		// (a counted loop comes back through its post block: the value it
+		// carries is itself a φ of the ways into that block)
+		seenPhi := map[*ssa.Phi]bool{}
+		var carried func(ph *ssa.Phi)
+		carried = func(ph *ssa.Phi) {
+			if seenPhi[ph] {
+				return
 			}
-			fromMarker := pred == b.Succs[1] || b.Succs[1].Dominates(pred)
-			if !fromMarker {
-				continue
-			}
-			sawMarkerEdge = true
-			if c, isC := e.(*ssa.Const); !isC || c.Value == nil || c.Value.ExactString() != "true" {
-				setOnMarker = false
+			seenPhi[ph] = true
+			for i, e := range ph.Edges {
+				pred := ph.Block().Preds[i]
+				if !phi.Block().Dominates(pred) {
+					continue // entry edge
+				}
+				fromMarker := pred == b.Succs[1] || b.Succs[1].Dominates(pred)
+				if !fromMarker {
+					if inner, isPhi := e.(*ssa.Phi); isPhi && inner != phi && phi.Block().Dominates(inner.Block()) {
+						carried(inner)
+					}
+					continue
+				}
+				sawMarkerEdge = true
+				if c, isC := e.(*ssa.Const); !isC || c.Value == nil || c.Value.ExactString() != "true" {
+					setOnMarker = false
+				}
 			}
 		}
+		carried(phi)
 		r.Check(pre+"G9", "process:second-marker", good && setOnMarker && sawMarkerEdge, p.InstrPos(iff), "a marker seen before aborts with illegal_parameter (%v) and the first marker sets the flag for the following iterations (%v)", good, setOnMarker && sawMarkerEdge)
 	}
 	r.Check(pre+"G9", "process:marker-flag", n9 == 1, p.Pos(fn.Pos()), "exactly one 'marker already seen' test on the ech_outer_extensions path (found %d)", n9)
@@ -689,6 +703,18 @@ func readTarget(p *core.Prog, s site) string {
 	return short(x)
 }
 
+// isTableTest: the fact tests errors.Is(err, tbl[i].f) for a local literal table.
+func isTableTest(f core.Fact) *tableRef {
+	if f.L == nil || f.L.Op != "call" || f.L.Name != "errors.Is" || len(f.L.Args) != 2 || f.L.Args[0].Op != "param" {
+		return nil
+	}
+	call, ok := f.L.Val.(*ssa.Call)
+	if !ok || len(call.Call.Args) != 2 {
+		return nil
+	}
+	return structTableField(call.Call.Args[1])
+}
+
 func c04AlertMap(p *core.Prog, r *core.Run, m *echModel) {
 	conv := p.Func(Ech, "convertErrorsToAlerts")
 	send := p.Func(Ech, "sendAlert")
@@ -713,6 +739,7 @@ func c04AlertMap(p *core.Prog, r *core.Run, m *echModel) {
 			desc int64
 			okD  bool
 			fs   []core.Fact
+			raw  ssa.Value
 		}
 		var cases []acase
 		var expand func(v ssa.Value, fs []core.Fact, depth int)
@@ -724,13 +751,14 @@ func c04AlertMap(p *core.Prog, r *core.Run, m *echModel) {
 				return
 			}
 			d, okD := p.X(v).ConstInt()
-			cases = append(cases, acase{d, okD, fs})
+			cases = append(cases, acase{d, okD, fs, v})
 		}
 		expand(s.Instr.Common().Args[2], p.Facts(s.Block()), 0)
 		for _, c := range cases {
 			desc, okD := c.desc, c.okD
 			var pos, negs []string
 			errNonNil := false
+			var tpos []*tableRef
 			for _, f := range c.fs {
 				if f.L.Op == "call" && f.L.Name == "errors.Is" && len(f.L.Args) == 2 && f.L.Args[0].Op == "param" && f.L.Args[1].Op == "global" {
 					if f.Op == "true" {
@@ -738,9 +766,72 @@ func c04AlertMap(p *core.Prog, r *core.Run, m *echModel) {
 					} else {
 						negs = append(negs, f.L.Args[1].Name)
 					}
+				} else if tr := isTableTest(f); tr != nil && f.Op == "true" {
+					tpos = append(tpos, tr)
 				}
 				if f.Op == "!=" && f.L.Op == "param" && f.R.Name == "nil" {
 					errNonNil = true
+				}
+			}
+			// table-driven form: `for _, a := range table { if errors.Is(err,
+			// a.target) { sendAlert(.., a.description) } }` stands for one case per row
+			if td := structTableField(c.raw); td != nil && !okD && len(pos) == 0 && len(tpos) == 1 && tpos[0].Alloc == td.Alloc && tpos[0].Index == td.Index {
+				for k, row := range td.Rows {
+					name := "-"
+					if row[tpos[0].Field] != nil {
+						if g := p.X(row[tpos[0].Field]); g.Op == "global" {
+							name = g.Name
+						}
+					}
+					var d int64 = -1
+					okRow := false
+					if row[td.Field] != nil {
+						d, okRow = p.X(row[td.Field]).ConstInt()
+					}
+					want, known := alertTable[name]
+					if seen[name] {
+						// an earlier row (or case) already answers for this sentinel
+						r.Check("C04.ALERT.map", fmt.Sprintf("map:row#%d", k), false, p.InstrPos(s.Instr), "row %d repeats sentinel %s", k, name)
+						continue
+					}
+					seen[name] = true
+					got[name] = d
+					r.Check("C04.ALERT.map", "map:"+name, known && okRow && d == want && level == 2 && okConn && errNonNil, p.InstrPos(s.Instr), "%s -> alert %d at level %d (RFC 8446: %d, fatal=2), row %d of the table", name, d, level, want, k)
+				}
+				continue
+			}
+			// the default after such a loop: every way round the loop is a failed
+			// test of that row's sentinel
+			if len(pos) == 0 && len(tpos) == 0 {
+				for h, body := range core.Loops(conv) {
+					if body[s.Block()] || !h.Dominates(s.Block()) {
+						continue
+					}
+					var tr *tableRef
+					allBack := true
+					for _, pr := range h.Preds {
+						if !body[pr] {
+							continue
+						}
+						found := false
+						for _, f := range p.EdgeFacts(pr, h) {
+							if t := isTableTest(f); t != nil && f.Op == "false" && rangeLoopOver(h, t.Index) {
+								found, tr = true, t
+							}
+						}
+						if !found {
+							allBack = false
+						}
+					}
+					if allBack && tr != nil {
+						for _, row := range tr.Rows {
+							if row[tr.Field] != nil {
+								if g := p.X(row[tr.Field]); g.Op == "global" {
+									negs = append(negs, g.Name)
+								}
+							}
+						}
+					}
 				}
 			}
 			negs = uniqStrings(negs)
